@@ -635,6 +635,17 @@ fn main() {
     let code = match args.get(1).map(|s| s.as_str()) {
         Some("run") => run(vcore::tier_from_env(), vcore::seed_from_env()),
         Some("replay") => replay(&args[2]),
+        Some("pool") => {
+            // diagnostic: the text pool of a seed, one line per text (length, diagnostics, first line)
+            let root = Rng::new(vcore::seed_from_env());
+            let pool = TextPool::build(&mut root.child("pool", 0), vcore::tier_from_env().pick(150, 600));
+            for (i, t) in pool.texts.iter().enumerate() {
+                let d = oracle::expected_diagnostics(t).map(|d| d.len() as i64).unwrap_or(-1);
+                let errs = oracle::expected_diagnostics(t).map(|d| d.iter().filter(|x| x.contains("|1|") || x.starts_with("\"E") || x.contains("E0")).count()).unwrap_or(0);
+                println!("{i}\t{}\tdiags={d}\terrs~{errs}\twip={}\t{:?}", t.len(), t.contains("zz_wip"), t.lines().last().unwrap_or(""));
+            }
+            0
+        }
         Some("leaktest") => {
             leaktest(&args);
             0
